@@ -237,7 +237,12 @@ def _shrink_nodes(nodes: list, pred, budget: int = 80) -> list:
 # ------------------------------------------------------------------------------ part B (runs in forked children)
 
 def _build_env(cfg: dict[str, Any]):
-    env = drv.make_env({k: v for k, v in cfg.items() if k in ("flags", "delims", "mode", "extra", "template_comments", "undefined", "strict_filters", "autoescape")})
+    kw = {}
+    if cfg.get("future"):
+        from liquid.future import Environment as FutureEnvironment
+
+        kw["base"] = FutureEnvironment
+    env = drv.make_env({k: v for k, v in cfg.items() if k in ("flags", "delims", "mode", "extra", "template_comments", "undefined", "strict_filters", "autoescape")}, **kw)
     mark = cfg.get("mark")
     if cfg.get("own_filter"):
         env.add_filter("upcase", lambda s, _m=mark: f"<{_m}:{s}>")
@@ -589,8 +594,31 @@ def judge_wsgrid(ctx: core.Ctx, case: dict[str, Any]) -> None:
     ctx.violation(f"rewrite-differs:whitespace-control:{kinds}", f"default delimiters: {sd!r} -> {a.brief()}; delimiters {ds}: {sc!r} -> {b.brief()}", {"default": sd, "custom": sc, "delims": ds})
 
 
+def paired_environment_histories():
+    """Two environments of the same class with the same delimiters that differ in exactly one thing (a tag of their own, the extra tags, a
+    filter of their own, tolerance, template comments, an expression flag), used alternately, in both orders of creation; for the stock
+    Environment and for liquid.future.Environment."""
+    bodies = [BODIES[1], BODIES[11], BODIES[2], BODIES[3], BODIES[7], BODIES[5], BODIES[0]]
+    diffs = [{"own_tag": True}, {"extra": True}, {"own_filter": True}, {"mode": "lax"}, {"template_comments": True}, {"flags": {"ternary_expressions": True}}]
+    for future in (False, True):
+        for ds in (DELIM_SETS[0], DELIM_SETS[1]):
+            for d in diffs:
+                for order in (0, 1):
+                    plain = {"delims": ds, "mode": "strict", "flags": {}, "extra": False, "template_comments": False, "strict_filters": True, "mark": "P", "future": future}
+                    other = dict(plain, mark="Q", **d)
+                    envs = [plain, other] if order == 0 else [other, plain]
+                    steps = []
+                    for i in (0, 1, 0, 1):
+                        for body, data in bodies:
+                            steps.append([i, print_body(body, ds), V.enc(data), False])
+                    yield {"kind": "history", "envs": envs, "steps": steps, "create_up_front": bool(order)}
+
+
 def cases(ctx: core.Ctx):
     rng = ctx.rng("cases")
+    for gi, c in enumerate(paired_environment_histories()):
+        if gi % ctx.nshards == ctx.shard:
+            yield c
     for gi, c in enumerate(ws_grid()):
         if gi % ctx.nshards == ctx.shard:
             yield c
